@@ -117,7 +117,7 @@ Fixpoint run_ops (a : assets) (s : session) (ops : list op) : list (list N) :=
                         | OTamper r => (a, tamper s, r)
                         end in
       match resume_session a s r timeout_text with
-      | Rejected code => [1; code] :: run_ops a s rest
+      | Rejected code => ([1; code] ++ enc_session s) :: run_ops a s rest   (* the session is the caller's, as it was *)
       | Resumed res =>
           enc_result_ res ::
           match res with
